@@ -267,8 +267,11 @@ def apply(text, m):
 
 def main():
     root = sys.argv[sys.argv.index("--root") + 1] if "--root" in sys.argv else "/repo"
+    only = sys.argv[sys.argv.index("--files") + 1].split(",") if "--files" in sys.argv else None
     i = 0
     for rel in FILES:
+        if only is not None and rel not in only:
+            continue
         text = open(os.path.join(root, rel)).read()
         second = "--second" in sys.argv
         for m in (mutants2_of(rel, text) if second else mutants_of(rel, text)):
